@@ -7,6 +7,7 @@ import (
 	"go/types"
 	"os"
 	"path/filepath"
+	"regexp"
 	"sort"
 	"strings"
 	"time"
@@ -517,4 +518,85 @@ func (c *Ctx) shadow() *Ctx {
 	s.order = nil
 	s.notes = nil
 	return &s
+}
+
+var (
+	reIdent    = regexp.MustCompile(`[A-Za-z_][A-Za-z0-9_]*`)
+	keepIdents = map[string]bool{"P1": true, "P2": true, "P3": true, "P4": true, "P5": true, "P6": true, "P7": true,
+		"slice": true, "index": true, "make": true, "len": true, "cap": true, "call": true, "assert": true, "panic": true,
+		"append": true, "copy": true, "nil": true, "true": true, "false": true, "fn": true, "arg0": true, "arg1": true,
+		"byte": true, "int": true, "uint": true, "int8": true, "int16": true, "int32": true, "int64": true, "uint8": true,
+		"uint16": true, "uint32": true, "uint64": true, "string": true, "bool": true, "error": true, "any": true,
+		"R": true, "drop": true, "deadread": true, "swallow": true, "stale": true, "useonfail": true, "tolerated": true,
+		"return": true, "under": true, "of": true, "read": true, "stored": true, "by": true, "recursion": true, "link": true,
+		"list": true, "refs": true, "channel": true, "send": true, "div": true, "rem": true, "literal": true, "field": true}
+)
+
+// eraseNames removes what a benign rename can change from an obligation key: names of locals,
+// parameters, phis and local allocations. Field names (after '.'), function and package names
+// (before '.', '(' or '/') and the structural words of the key formats stay. Used only as a fallback
+// when an exception key does not match exactly, so that renaming a variable inside an excepted
+// construct does not turn the exception off.
+func eraseNames(key string) string {
+	key = regexp.MustCompile(`φ[A-Za-z0-9_]*`).ReplaceAllString(key, "φ")
+	key = regexp.MustCompile(`&[A-Za-z_][A-Za-z0-9_]*`).ReplaceAllString(key, "&_")
+	idx := reIdent.FindAllStringIndex(key, -1)
+	var b strings.Builder
+	last := 0
+	for _, m := range idx {
+		s, e := m[0], m[1]
+		b.WriteString(key[last:s])
+		last = e
+		id := key[s:e]
+		var prev, next byte
+		if s > 0 {
+			prev = key[s-1]
+		}
+		if e < len(key) {
+			next = key[e]
+		}
+		if prev == '.' || prev == '/' || prev == '$' || next == '.' || next == '(' || next == '/' || next == '$' || keepIdents[id] {
+			b.WriteString(id)
+			continue
+		}
+		b.WriteString("_")
+	}
+	b.WriteString(key[last:])
+	return b.String()
+}
+
+// excLookupE / excLookupS: exact match first, then match modulo erased names (deterministic: the
+// smallest matching table key).
+func excLookupE(m map[string]excEntry, key string) (excEntry, bool) {
+	if e, ok := m[key]; ok {
+		return e, true
+	}
+	nk := eraseNames(key)
+	best := ""
+	for k := range m {
+		if eraseNames(k) == nk && (best == "" || k < best) {
+			best = k
+		}
+	}
+	if best != "" {
+		return m[best], true
+	}
+	return excEntry{}, false
+}
+
+func excLookupS(m map[string]string, key string) (string, bool) {
+	if e, ok := m[key]; ok {
+		return e, true
+	}
+	nk := eraseNames(key)
+	best := ""
+	for k := range m {
+		if eraseNames(k) == nk && (best == "" || k < best) {
+			best = k
+		}
+	}
+	if best != "" {
+		return m[best], true
+	}
+	return "", false
 }
